@@ -17,6 +17,7 @@
  */
 #include "common.h"
 #include <locale.h>
+#include <errno.h>
 #include <stdbool.h>
 #include <limits.h>
 #include <eav.h>
@@ -100,6 +101,7 @@ static void hl_one(const char *s, size_t n, int mode, int tld, int have_allow, i
         if (have_allow) e->allow_tld = allow;
     }
     g_stage = "eav_is_email";
+    errno = (order_ctr & 2) ? EDOM : 0;          /* a stale errno from the caller's earlier work must not matter */
     ret = eav_is_email(e, s, n);
     g_stage = "eav_errstr";
     msg = eav_errstr(e);
